@@ -541,6 +541,7 @@ func (env *Env) call(n *ECall) Val {
 		rt := pk.resolveType(uf.Ret)
 		rs := comps(rt)[0].Sort
 		t := x.uf("uf:"+uf.Name, sorts, rs, ts...)
+		x.declareUFRange(uf, sorts, rs, rt)
 		if uf.Injective {
 			x.declareInjective(uf, sorts, rs)
 		}
@@ -550,6 +551,23 @@ func (env *Env) call(n *ECall) Val {
 	return Val{}
 }
 
+// declareUFRange: results of a spec-level uninterpreted function respect their Go type.
+func (x *Exec) declareUFRange(uf *UFDecl, sorts []Sort, rs Sort, rt types.Type) {
+	key := "$rng:" + uf.Name
+	if _, ok := x.tags[key]; ok {
+		return
+	}
+	x.tags[key] = 1
+	f := x.decls.Fun("uf:"+uf.Name, sorts, rs)
+	var as []Term
+	for i, s := range sorts {
+		as = append(as, Term{fmt.Sprintf("a!%d", i), s})
+	}
+	if tc := typeConstraint(rt, []Term{app(rs, f, as...)}); tc.S != "true" {
+		x.decls.Axiom(Forall(as, tc))
+	}
+}
+
 func (x *Exec) declareInjective(uf *UFDecl, sorts []Sort, rs Sort) {
 	key := "$inj:" + uf.Name
 	if _, ok := x.tags[key]; ok {
@@ -557,16 +575,16 @@ func (x *Exec) declareInjective(uf *UFDecl, sorts []Sort, rs Sort) {
 	}
 	x.tags[key] = 1
 	f := x.decls.Fun("uf:"+uf.Name, sorts, rs)
-	var as, bs []Term
-	var eqs []Term
+	// injectivity through inverse functions: inv_i(f(a_0..a_n)) = a_i (single-pattern, E-matching friendly)
+	var as []Term
 	for i, s := range sorts {
-		a := Term{fmt.Sprintf("a!%d", i), s}
-		b := Term{fmt.Sprintf("b!%d", i), s}
-		as = append(as, a)
-		bs = append(bs, b)
-		eqs = append(eqs, Eq(a, b))
+		as = append(as, Term{fmt.Sprintf("a!%d", i), s})
 	}
-	x.decls.Axiom(Forall(append(append([]Term{}, as...), bs...), Implies(Eq(app(rs, f, as...), app(rs, f, bs...)), And(eqs...))))
+	fa := app(rs, f, as...)
+	for i, s := range sorts {
+		inv := x.decls.Fun(fmt.Sprintf("uf:%s!inv%d", uf.Name, i), []Sort{rs}, s)
+		x.decls.Axiom(Forall(as, Eq(app(s, inv, fa), as[i])))
+	}
 }
 
 func msgBody(msg Val) Term {
